@@ -693,10 +693,15 @@ class AXILiteArbiter(LiteXModule):
             request  = target.ar.valid & target.ar.ready,
             response = target.r.valid  & target.r.ready
         )
+        # Write data can be accepted before its address: it also holds the grant until its response.
+        self.wr_data_lock = wr_data_lock = _AXILiteRequestCounter(
+            request  = target.w.valid & target.w.ready,
+            response = target.b.valid & target.b.ready
+        )
 
         # Switch to next request only if there are no responses pending.
         self.comb += [
-            self.rr_write.ce.eq(~(target.aw.valid | target.w.valid | target.b.valid) & wr_lock.ready),
+            self.rr_write.ce.eq(~(target.aw.valid | target.w.valid | target.b.valid) & wr_lock.ready & wr_data_lock.ready),
             self.rr_read.ce.eq(~(target.ar.valid | target.r.valid) & rd_lock.ready),
         ]
 
